@@ -78,6 +78,8 @@ def make_interval(eng, name):
     form = eng.choose(4, f"{name} interval shape")
     lo = eng.fresh_real(f"{name}.lo") if form in (0, 1) else None
     hi = eng.fresh_real(f"{name}.hi") if form in (0, 2) else None
+    if lo is not None and hi is not None:
+        eng.assume(compare("<=", lo, hi))  # requires: an operand's interval is well formed (lo <= hi)
     eng.input_syms.append((f"{name}.lo", OPT_REAL, lo))
     eng.input_syms.append((f"{name}.hi", OPT_REAL, hi))
     return lo, hi
@@ -148,6 +150,7 @@ def register(reg):
 
     reg.binop_fallback = none_binop
     register_support_interval(reg)
+    register_handlers(reg)
 
 
 # ------------------------------------------------------------------------------------------------
@@ -262,4 +265,152 @@ def replay_operator_support(inputs, clause):
     eps = 1e-9 * (1 + abs(v))
     if (lo is not None and v < lo - eps) or (hi is not None and v > hi + eps):
         return f"supportInterval() = ({lo}, {hi}) for {op} with operand intervals object=({inputs.get('object.lo')}, {inputs.get('object.hi')}) operand=({inputs.get('operand.lo')}, {inputs.get('operand.hi')}), but x={x}, y={y} gives the value {v}"
+    return None
+
+
+# ------------------------------------------------------------------------------------------------
+# (2) makeOperatorHandler: every shortcut is an identity of Python arithmetic; otherwise the node is `self op arg`
+
+_powfn = z3.Function("python_pow", z3.RealSort(), z3.RealSort(), z3.RealSort())
+
+
+def python_op_ext(op, x, y):
+    """python_op extended with the two facts about ** that the shortcuts may rely on (x**1 == x, x**0 == 1)."""
+    if op in ("__pow__", "__rpow__"):
+        base, ex = (x, y) if op == "__pow__" else (y, x)
+        zb, ze = toz3(base, want_real=True), toz3(ex, want_real=True)
+        return True, SV(z3.If(ze == 1, zb, z3.If(ze == 0, z3.RealVal(1), _powfn(zb, ze))), True)
+    return python_op(op, x, y)
+
+
+ALL_HANDLER_OPS = ["__neg__", "__pos__", "__abs__", "__round__", "__getitem__", "__len__"] + [
+    "__add__", "__radd__", "__sub__", "__rsub__", "__mul__", "__rmul__", "__truediv__", "__rtruediv__", "__floordiv__",
+    "__rfloordiv__", "__mod__", "__rmod__", "__divmod__", "__rdivmod__", "__pow__", "__rpow__",
+]
+
+
+def node_ctor(I, cls, args, kwargs):
+    """OperatorDistribution(operator, obj, operands, kwoperands, valueType=None) as a record of its arguments."""
+    names = ["operator", "object", "operands", "kwoperands", "valueType"]
+    b = dict(zip(names, args))
+    b.update(kwargs)
+    o = PObj(cls)
+    kw = b.get("kwoperands")
+    kwd = PDict(list(zip(kw.keys, kw.vals))) if isinstance(kw, PDict) else PDict(list((kw or {}).items()))
+    ops = tuple(I.iterate(b.get("operands", ())))
+    o.fields.update(operator=b.get("operator"), object=b.get("object"), operands=ops, kwoperands=kwd, _valueType=b.get("valueType"))
+    o.fields.update(_isLazy=True, _needsSampling=True, _needsLazyEval=False, _requiredProperties=(), _dependencies=(b.get("object"),) + ops + tuple(kwd.vals))
+    o.fields["_conditioned"] = o
+    return o
+
+
+def register_handlers(reg):
+    reg.constructors[f"{D}:OperatorDistribution"] = node_ctor
+    reg.trust("OperatorDistribution.__init__ (at construction sites inside other carriers)", "modelled as a record of (operator, object, operands, kwoperands, valueType); the real initialiser has its own contract OperatorDistribution.__init__")
+    ori_cls = repo_class("scenic.core.vectors:Orientation")
+    identity = PObj(ori_cls, tag="globalOrientation")
+    reg.global_overrides["scenic.core.vectors:globalOrientation"] = identity
+    reg.trust("vectors.globalOrientation", "an opaque token for the identity orientation (q * identity == q is a rotation-group axiom, C07)")
+    name = "distributions.makeOperatorHandler"
+
+    def setup(I, env):
+        eng = I.eng
+        op = ALL_HANDLER_OPS[eng.choose(len(ALL_HANDLER_OPS), "operator")]
+        env.vars["op"] = op
+        env.vars["ty"] = None
+        eng.input_syms.append(("operator", C.Const(None), op))
+
+    def post(I, env, outcome):
+        eng = I.eng
+        if outcome[0] != "return":
+            return
+        handler, op = outcome[1], env.vars["op"]
+        eng.check(f"{name}#ensures.returns_a_handler", isinstance(handler, FuncVal))
+        if not isinstance(handler, FuncVal):
+            return
+        vt_k = eng.choose(3, "value type")
+        vt = (float, int, ori_cls)[vt_k]
+        eng.input_syms.append(("valueType", C.Const(None), ("float", "int", "Orientation")[vt_k]))
+        self = PObj(repo_class(f"{D}:Distribution"), tag="X")
+        self.fields.update(_valueType=vt, _isLazy=True, _needsSampling=True, _needsLazyEval=False, _dependencies=(), _requiredProperties=())
+        self.fields["_conditioned"] = self
+        unary = op in ("__neg__", "__pos__", "__abs__", "__len__")
+        if unary:
+            args = []
+        elif vt is ori_cls:
+            args = [identity if eng.choose(2, "arg is the identity orientation?") == 0 else eng.fresh_real("c")]
+        else:
+            kind = eng.choose(2, "constant kind")
+            c = eng.fresh_real("c") if kind == 0 else eng.fresh_int("c")
+            eng.input_syms.append(("c", C.Real() if kind == 0 else C.Int(), c))
+            args = [c]
+        try:
+            res = I.call_value(handler, [self] + args)
+        except SymRaise as sr:
+            eng.check(f"{name}#ensures.handler_does_not_raise", False, detail=repr(sr.exc))
+            return
+        if res is self:
+            # a shortcut was taken: it must be an identity of Python arithmetic on the value type
+            if vt is ori_cls:
+                eng.check(f"{name}#ensures.orientation_shortcut_only_for_multiplication_by_the_identity", op in ("__mul__", "__rmul__") and args[0] is identity)
+                return
+            x = eng.fresh_real("x") if vt is float else eng.fresh_int("x")
+            eng.input_syms.append(("x", C.Real() if vt is float else C.Int(), x))
+            if unary:
+                defined, value = python_op_ext(op, x, None)
+            else:
+                defined, value = python_op_ext(op, x, args[0])
+            if defined is None:
+                eng.check(f"{name}#ensures.no_shortcut_for_an_operator_without_arithmetic_meaning", False)
+                return
+            eng.check(f"{name}#ensures.shortcut_is_an_identity_of_python_arithmetic", _implies(defined, compare("==", value, x)))
+            eng.check(f"{name}#ensures.shortcut_operation_is_defined", defined)
+            return
+        ok = isinstance(res, PObj) and getattr(res.cls, "name", None) == "OperatorDistribution"
+        eng.check(f"{name}#ensures.otherwise_builds_an_operator_node", ok)
+        if not ok:
+            return
+        f = res.fields
+        eng.check(f"{name}#ensures.node_has_the_operator", f["operator"] == op)
+        eng.check(f"{name}#ensures.node_object_is_self", f["object"] is self)
+        same = len(f["operands"]) == len(args) and all((a is b) for a, b in zip(f["operands"], args))
+        eng.check(f"{name}#ensures.node_operands_are_the_arguments_in_order", same)
+        eng.check(f"{name}#ensures.node_has_no_keyword_operands", len(f["kwoperands"].keys) == 0)
+
+    reg.add(
+        C.Contract(
+            f"{D}:makeOperatorHandler",
+            params=dict(op=C.Const(None), ty=C.Const(None)),
+            setup=setup,
+            post=post,
+            replay=replay_handler,
+            properties=("C05",),
+        )
+    )
+
+
+def replay_handler(inputs, clause):
+    from scenic.core.distributions import Distribution
+
+    op, vt = inputs.get("operator"), inputs.get("valueType")
+    if vt not in ("float", "int") or "c" not in inputs or "x" not in inputs:
+        return None
+    ty = float if vt == "float" else int
+
+    class Leaf(Distribution):
+        def __init__(self):
+            super().__init__(valueType=ty)
+
+    d = Leaf()
+    c, x = inputs["c"], ty(inputs["x"]) if vt == "int" else float(inputs["x"])
+    res = getattr(d, op)(c)
+    if res is not d:
+        return None
+    try:
+        v = _real_op(op, x, c) if op not in ("__pow__", "__rpow__") else (x**c if op == "__pow__" else c**x)
+    except ZeroDivisionError:
+        return f"X.{op}({c!r}) is simplified to X although the operation is undefined for X = {x!r}"
+    if v != x:
+        sym = {"__floordiv__": "//", "__truediv__": "/", "__pow__": "**", "__add__": "+", "__radd__": "+", "__sub__": "-", "__mul__": "*", "__rmul__": "*"}.get(op, op)
+        return f"X {sym} {c!r} is simplified to X (the very same node), but for the sample X = {x!r} Python gives {v!r}"
     return None
